@@ -22,6 +22,12 @@ structure Exch where
   rbLen : Nat := 0
   rbSeed : Nat := 0
   rt : List (String × String) := []
+  flush : Bool := false
+  gz : Bool := false
+  /-- `some k`: the request body's source fails after `k` bytes -/
+  bf : Option Nat := none
+  /-- `some i`: HEAD twin of exchange `i` -/
+  tw : Option Nat := none
 deriving Repr, Inhabited
 
 def parseKVs (s : String) : List (String × String) :=
@@ -56,16 +62,31 @@ def bodySig (bs : List Nat) : String := s!"{bs.length}:{hex16 (fnv64 bs)}"
 def Exch.hasReqBody (e : Exch) : Bool := e.method == "POST" || e.method == "PUT"
 def Exch.noRespBody (e : Exch) : Bool := e.method == "HEAD" || e.status == 204 || e.status == 304
 
-/-- what the handler must see -/
-def Exch.srvView (e : Exch) : String :=
+/-- what the handler must see.  When the client's body source fails (`bf`), how many bytes reach the
+    handler before the stream reset depends on timing: `implB` (what the implementation reported) is
+    taken as a witness and judged by the monitor `request_body_abort_is_error`; the read must end
+    with an error. -/
+def Exch.srvView (e : Exch) (implB : String) : String :=
   let body := if e.hasReqBody then pattern e.bLen e.bSeed else []
   let tr := if e.hasReqBody then sortByName e.t else []
-  s!"srv m={e.method} p={e.path} h={fmtKVs (reqHeaderView e.h)} b={bodySig body} t={fmtKVs tr}"
+  match e.bf with
+  | some _ => s!"srv m={e.method} p={e.path} h={fmtKVs (reqHeaderView e.h)} b={implB} t=- rerr=1"
+  | none => s!"srv m={e.method} p={e.path} h={fmtKVs (reqHeaderView e.h)} b={bodySig body} t={fmtKVs tr}"
 
-/-- what the client must see -/
-def Exch.cliView (e : Exch) : String :=
+/-- the Content-Length header the client must see, where the exchange determines it: the handler
+    neither sets it nor flushes, no gzip, a status that allows a body — then a response below the
+    4096-byte small-response limit, and every HEAD response, announces exactly the bytes the handler
+    wrote; a larger streamed response announces none. `none`: not determined by the exchange. -/
+def Exch.autoContentLength (e : Exch) : Option String :=
+  if e.flush || e.gz || e.status == 204 || e.status == 304 then none
+  else if e.method == "HEAD" then some (toString e.rbLen)
+  else if e.rbLen < 4096 then some (toString e.rbLen) else some "-"
+
+/-- what the client must see (`implCl`: the Content-Length header as reported, a witness judged by the
+    monitors `auto_content_length` and `head_equals_get_headers`) -/
+def Exch.cliView (e : Exch) (implCl : String) : String :=
   let body := if e.noRespBody then [] else pattern e.rbLen e.rbSeed
   let tr := if e.noRespBody then [] else sortByName e.rt
-  s!"cli st={e.status} i={e.info} h={fmtKVs (sortByName e.rh)} b={bodySig body} t={fmtKVs tr} err=-"
+  s!"cli st={e.status} i={e.info} h={fmtKVs (sortByName e.rh)} b={bodySig body} t={fmtKVs tr} err=- cl={implCl}"
 
 end Uquic.Spec.H3Echo
